@@ -14,7 +14,7 @@
 #include <mh_sha1_murmur3_x64_128.h>
 #include <rolling_hashx.h>
 #define ACC(ptr, n) do { const uint8_t *b_ = (const uint8_t *) (ptr); for (size_t i_ = 0; i_ < (size_t) (n); i_++) h = mix64(h, b_[i_]); } while (0)
-typedef struct { uint8_t kd[sizeof(struct isal_gcm_key_data)] __attribute__((aligned(64))); struct isal_gcm_context_data gctx; uint8_t in[4096] __attribute__((aligned(64))), out[4096] __attribute__((aligned(64))), out2[4096] __attribute__((aligned(64)));
+typedef struct { uint8_t kd[sizeof(struct isal_gcm_key_data)] __attribute__((aligned(64))); struct isal_gcm_context_data gctx; uint8_t in[16384] __attribute__((aligned(64))), out[16384] __attribute__((aligned(64))), out2[16384] __attribute__((aligned(64)));
         uint8_t key[64], iv[16] __attribute__((aligned(16))), aad[64], tag[16], e[240] __attribute__((aligned(16))), d[240] __attribute__((aligned(16)));
         struct isal_mh_sha1_ctx mh1; struct isal_mh_sha256_ctx mh2; struct isal_mh_sha1_murmur3_x64_128_ctx mh3; struct isal_rh_state2 rh; uint8_t *hmgr[5], *hctx[5][4]; } priv_t;
 
